@@ -141,6 +141,61 @@ def _replay(job, phase):
             notes.append('solution after failed adapt')
         return dict(findings=findings, drift=drift, notes=notes, hsig=hsig, solved=False, outs=outs)
 
+    # ---------------------------------------------------------------- rule_var: the solver columns
+    # code -> spec: the column map the formulation will use (static part and slope blocks of rule_var) against the
+    # declared events and dependencies (ideal) and against the specification's Col / SlopeCol (transcription)
+    phase[0] = 'colmap'
+    if rec.get('colsAll'):
+        from harness import colmap
+        cm = colmap.column_map(mB)
+        ids = [id(d) for d in mB.dec_vars]
+        pos = [ids.index(id(x)) for x in xB]
+        ideal_ev = [[next(k for k, b in enumerate(rec['ea'][v]) if s in b) for s in range(ns)] for v in range(len(sizes))]
+        seen = {}
+        bad = None
+        for v in range(len(sizes)):
+            st_ = cm['static'][pos[v]]
+            for i in range(sizes[v]):
+                for s in range(ns):
+                    col = st_[s][i]
+                    key = ('x', v, i, ideal_ev[v][s])
+                    if col < 0:
+                        bad = bad or ('static-entry-not-one-column', v, i, s)
+                    elif seen.setdefault(('col', col), key) != key:
+                        bad = bad or ('static-column-shared-across-events' if seen[('col', col)][:3] == key[:3] else 'static-column-collision', v, i, s)
+                    elif seen.setdefault(key, col) != col:
+                        bad = bad or ('static-columns-differ-within-event', v, i, s)
+            want_pairs = sorted((i + 1, c) for i in range(sizes[v]) for c in rec['decl'][v][i])
+            for s in range(ns):
+                got_pairs = sorted((i, c) for i, c, _ in cm['slopes'][pos[v]][s])
+                if got_pairs != want_pairs:
+                    bad = bad or ('slope-pattern-differs-from-declared', v, s, got_pairs)
+                for i, c, col in cm['slopes'][pos[v]][s]:
+                    key = ('s', v, i, c, ideal_ev[v][s])
+                    if seen.setdefault(('col', col), key) != key:
+                        bad = bad or ('slope-column-shared-across-events' if seen[('col', col)][:4] == key[:4] else 'slope-column-collision', v, i, s)
+                    elif seen.setdefault(key, col) != col:
+                        bad = bad or ('slope-columns-differ-within-event', v, i, s)
+        if bad:
+            findings.append(dict(sig='C13:colmap:' + bad[0], prop='C13',
+                                 what='rule_var column map is not one rule per declared event (%s at variable %d)' % (bad[0], bad[1] + 1),
+                                 at=list(bad[1:]), static=[cm['static'][q] for q in pos], slopes=[cm['slopes'][q] for q in pos],
+                                 ea=rec['ea'], decl=rec['decl'], hist=hist))
+        else:
+            # transcription: the very column numbers (relative to the first of each kind)
+            got_st = [[cm['static'][pos[v]][s] for s in range(ns)] for v in range(len(sizes))]
+            base_g = min(c for a in got_st for b in a for c in b)
+            base_w = min(c for a in rec['colsAll'] for b in a for c in b)
+            if [[[c - base_g for c in b] for b in a] for a in got_st] != [[[c - base_w for c in b] for b in a] for a in rec['colsAll']]:
+                drift.append(dict(kind='static_cols', want=rec['colsAll'], got=got_st))
+            got_sl = [[[list(t) for t in cm['slopes'][pos[v]][s]] for s in range(ns)] for v in range(len(sizes))]
+            allc = [t[2] for a in got_sl for b in a for t in b]
+            if allc:
+                b0 = min(allc)
+                rel = [[[[t[0], t[1], t[2] - b0] for t in b] for b in a] for a in got_sl]
+                if rel != [[[list(t) for t in b] for b in a] for a in rec['scols']]:
+                    drift.append(dict(kind='slope_cols', want=rec['scols'], got=rel))
+
     # ---------------------------------------------------------------- comb_set via x1 + x2
     phase[0] = 'comb'
     if len(sizes) >= 2 and rec['comb']:
